@@ -3,4 +3,5 @@ From Coq Require Import Extraction ExtrOcamlBasic.
 From PV Require Import Num Model_mindex Entry_mindex.
 Extraction Language OCaml.
 Extraction "model_mindex.ml" run_qprod run_symops run_misangle run_angles run_hist run_random
-  run_theory run_mindex_angles run_mindex run_mindex_full run_matq.
+  run_theory run_mindex_angles run_mindex run_mindex_full run_matq
+  run_gen_qprod run_gen_random run_gen_index run_gen_symops.
